@@ -374,6 +374,25 @@ local function metarec(n) local mt = {} mt.__index = function(t, k) if k <= 0 th
 local function pchain(n) if n <= 0 then return 0 end local ok, r = pcall(pchain, n - 1) if not ok then error(r, 0) end return r + 1 end
 local function cat(n) local t = mkt(n) return #(table.concat(t, ",")) end
 local function conest(n) if n <= 0 then return 0 end local co = coroutine.wrap(function() return conest(n - 1) + 1 end) return co() end
+local function callee4(a, b, c, d) local x1, x2, x3, x4, x5, x6, x7, x8, x9, x10, x11, x12 = 1, 2, 3, 4, 5, 6, 7, 8, 9, 10, 11, 12 return tostring(a) .. tostring(b) .. tostring(c) .. tostring(d) .. (x1 + x12) end
+local function fewargs(n) if n <= 0 then return callee4(1) end local r = fewargs(n - 1) return r end
+local function fewargs2(n) if n <= 0 then return callee4() end local r = fewargs2(n - 1) return r .. "" end
+local function threegen()
+  local C
+  local A = coroutine.create(function()
+    local B = coroutine.create(function()
+      C = coroutine.create(function(a) local b = coroutine.yield(a + 1) local c = coroutine.yield(b + 1) return c + 1 end)
+      coroutine.resume(C, 1)
+    end)
+    coroutine.resume(B)
+    coroutine.yield()
+  end)
+  coroutine.resume(A)
+  local _, r1 = coroutine.resume(C, 10)
+  coroutine.resume(A)
+  local ok, r2 = coroutine.resume(C, 20)
+  return tostring(r1) .. ":" .. tostring(ok) .. ":" .. tostring(r2) .. ":" .. coroutine.status(C)
+end
 local function run(id, f, ...)
   mark(id)
   local ok, r = pcall(f, ...)
@@ -390,7 +409,13 @@ func (e *Engine) demandProgram(t *core.Tape) (string, int) {
 	maxArg := 0
 	for i := 0; i < n; i++ {
 		id := fmt.Sprintf("d%d", i)
-		switch t.Choose(12) {
+		switch t.Choose(15) {
+		case 12:
+			fmt.Fprintf(&sb, "run(%q, fewargs, %d)\n", id, t.Choose(70))
+		case 13:
+			fmt.Fprintf(&sb, "run(%q, fewargs2, %d)\n", id, t.Choose(70))
+		case 14:
+			fmt.Fprintf(&sb, "run(%q, threegen)\n", id)
 		case 0, 1:
 			fmt.Fprintf(&sb, "run(%q, rec, %d)\n", id, depths[t.Choose(len(depths))])
 		case 2:
